@@ -87,7 +87,7 @@ MANIFEST = {
     }
 }
 PROPS = ["Nstd.Args.Props", "Nstd.Args.PropsWait", "Nstd.Args.PropsRun", "Nstd.Args.PropsRead", "Nstd.Args.PropsFds",
-         "Nstd.Args.PropsCode", "Nstd.Args.PropsProc"]
+         "Nstd.Args.PropsCode", "Nstd.Args.PropsProc", "Nstd.Args.PropsSel"]
 LEAN_TARGETS = PROPS + ["drv_args"]
 DRIVER = "drv_args"
 SOURCES = ["args.cpp", C.REPO / "src/String.cpp", C.REPO / "src/Memory.cpp", C.REPO / "src/Debug.cpp",
